@@ -73,6 +73,12 @@ pub struct Case {
     pub degenerate: Degenerate,
     pub scale_idx: u8,
     pub offset_idx: u8,
+    /// unit of the data: every coordinate is multiplied by 10^unit_exp and reg_covar by 10^(2 unit_exp)
+    #[serde(default)]
+    pub unit_exp: i8,
+    /// fit and predict in single precision (rows, queries and reg_covar are rounded to f32 first)
+    #[serde(default)]
+    pub f32: bool,
     /// requested number of rows (each generating component gets at least 2)
     pub n: usize,
     pub comps: Vec<Comp>,
@@ -108,14 +114,42 @@ impl Case {
     pub fn p(&self) -> usize {
         self.dims.clamp(1, MAX_DIMS)
     }
+    /// 10^unit_exp
+    pub fn unit(&self) -> f64 {
+        10f64.powi(self.unit_exp.clamp(-12, 6) as i32)
+    }
+    /// reg_covar in the data's unit (scaled with unit^2), rounded to the float type of the case
     pub fn reg(&self) -> f64 {
-        pick(&REG_COVAR, self.reg_idx)
+        let r = pick(&REG_COVAR, self.reg_idx) * self.unit() * self.unit();
+        self.round(r)
+    }
+    pub fn round(&self, v: f64) -> f64 {
+        if self.f32 {
+            (v as f32) as f64
+        } else {
+            v
+        }
+    }
+    /// Single precision has ~7 digits: keep the f32 cases inside the domain where a covariance that is
+    /// positive definite in exact arithmetic stays so after f32 rounding (condition number <~ 1e5):
+    /// no degenerate columns, reg_covar >= 1e-3 (1e-1 for the anisotropic layout), offset <= 1e3 units.
+    pub fn sanitised(mut self) -> Case {
+        if self.f32 {
+            self.degenerate = Degenerate::None;
+            self.reg_idx = self.reg_idx.clamp(1, 2);
+            if self.layout == Layout::Anisotropic {
+                self.reg_idx = 2;
+            }
+            self.offset_idx = self.offset_idx.min(1);
+        }
+        self
     }
     pub fn tol(&self) -> f64 {
         pick(&TOLERANCE, self.tol_idx)
     }
+    /// length of one "scale unit" of the layout: global scale factor times the data unit
     pub fn g(&self) -> f64 {
-        pick(&SCALES, self.scale_idx)
+        pick(&SCALES, self.scale_idx) * self.unit()
     }
     pub fn k(&self) -> usize {
         self.n_clusters.clamp(1, 4)
@@ -221,6 +255,13 @@ pub fn build(c: &Case) -> Built {
             }
         }
     }
+    if c.f32 {
+        for r in rows.iter_mut() {
+            for v in r.iter_mut() {
+                *v = c.round(*v);
+            }
+        }
+    }
     let n = rows.len();
     let mut lo = vec![f64::INFINITY; p];
     let mut hi = vec![f64::NEG_INFINITY; p];
@@ -277,6 +318,13 @@ pub fn build_queries(c: &Case, b: &Built) -> Vec<(Vec<f64>, Option<usize>)> {
                 let rho = b.radius + c.reg().sqrt();
                 let x: Vec<f64> = (0..p).map(|j| b.centroid[j] + FAR_S[si] * rho * u[j]).collect();
                 out.push((x, Some(si)));
+            }
+        }
+    }
+    if c.f32 {
+        for (x, _) in out.iter_mut() {
+            for v in x.iter_mut() {
+                *v = c.round(*v);
             }
         }
     }
